@@ -102,6 +102,13 @@ Definition lines_script_ok (old new : list bytes) (ds : script) : bool := script
 Definition file_diff_ok (ws : bool) (a b : bytes) (ds : script) : bool :=
   lines_script_ok (split_lines (strip ws a)) (split_lines (strip ws b)) ds.
 
+(* The property itself, independent of how the implementation strips: the lines are the lines of the blobs as
+   CountLines sees them, and with WhitespaceIgnore two lines are "identical" when they are equal after removing
+   the spaces.  This is the oracle applied to the implementation's output. *)
+Definition line_eq (ws : bool) (x y : bytes) : bool := list_eqb (strip ws x) (strip ws y).
+Definition spec_ok (ws : bool) (a b : bytes) (ds : script) : bool :=
+  script_ok (line_eq ws) (split_lines a) (split_lines b) ds.
+
 (* ---------------------------------------------------------------- burndown.File as an array *)
 
 (* File.Update(tick, pos, ins, del) on the flattened file: None = panic ("attempt to insert after the end of the
